@@ -1,6 +1,7 @@
 """C18 — symbolized callables keep Python call semantics."""
 import copy as copy_mod
 import inspect
+import pickle
 import sys
 import types
 import typing
@@ -11,9 +12,10 @@ from pgverif.gen import signatures as S
 
 TIERS = {
     'quick': dict(shards=8, cases=120, calls=20, family_every=2, sibling_calls=6,
-                  histories=2, steps=6, decorated_calls=9, nested=3),
+                  histories=2, steps=6, decorated_calls=9, nested=3, annotated_calls=8),
     'thorough': dict(shards=16, cases=1500, calls=40, family_every=3, sibling_calls=6,
-                     histories=2, steps=6, decorated_calls=9, nested=3, timeout_s=3000),
+                     histories=2, steps=6, decorated_calls=9, nested=3, annotated_calls=8,
+                     timeout_s=3000),
 }
 RULE = ('case = one generated signature (0-4 positional parameters with/without '
         'defaults, *args, 0-3 keyword-only parameters with/without defaults, '
@@ -252,6 +254,12 @@ class Target:
   # -- how values are chosen (overridden by targets with their own value classes) --
   annotated = False
 
+  @property
+  def picklable(self):
+    """The plain function / class can be found under its name in its module
+    (pickle stores classes and functions by reference)."""
+    return not self.decorated and (self.family is None or self.annotated)
+
   def make_call(self, rng, style=None):
     return S.make_call(rng, self.sig, style)
 
@@ -294,10 +302,78 @@ def first_difference(t, exp, got):
       return 'decorator-effect'
   if not isinstance(got, dict) or not isinstance(exp, dict):
     return 'result'
+  name = first_difference_name(t, exp, got)
+  return t.param_kind(name) if name is not None else 'order'
+
+
+def first_difference_name(t, exp, got):
+  if not isinstance(got, dict) or not isinstance(exp, dict):
+    return None
   for name in list(exp) + [n for n in got if n not in exp]:
     if name not in got or name not in exp or not same(exp[name], got[name]):
-      return t.param_kind(name)
-  return 'order'
+      return name
+  return None
+
+
+def kw_order(t, result, among=None):
+  """The order in which the callable saw its **kwargs (PEP 468: the order in
+  which they were passed); None if it has none / the result is no argument dict."""
+  name = t.sig['varkw']
+  if t.decorated and isinstance(result, dict):
+    result, _ = D.strip_layers(plain(result), plain(result))
+  if not name or not isinstance(result, dict) or not isinstance(result.get(name), dict):
+    return None
+  return [k for k in result[name] if among is None or k in among]
+
+
+def reported_order(t, obj):
+  """The **kwargs entries in the order the symbolic object reports them."""
+  named = set(t.pos + t.kwo + [t.sig['varargs']])
+  return [k for k in obj.sym_init_args.sym_keys() if k not in named]
+
+
+def check_copy_order(ctx, t, kind, what, orig, copy_, got, gotc, among, witness):
+  """A copy reports, and hands to the callable, the **kwargs in the order of
+  the object it was made from."""
+  if not t.sig['varkw']:
+    return
+  ctx.counters['varkw_order_checks'] += 1
+  a, b = reported_order(t, orig), reported_order(t, copy_)
+  if a != b:
+    ctx.violation(what, f'{kind}:varkw-order',
+                  f'the object reports its **{t.sig["varkw"]} as {a}, the copy as {b}', witness)
+    return
+  if got is not None and got[0] == 'ok' and gotc[0] == 'ok':
+    a, b = kw_order(t, got[1], among), kw_order(t, gotc[1], among)
+    if a != b:
+      ctx.violation(what, f'{kind}:varkw-order',
+                    f'the callable of the object saw **{t.sig["varkw"]} in the order {a}, '
+                    f'that of the copy in the order {b}', witness)
+
+
+def pickled(obj):
+  """pickle round trip.  Classes are pickled by reference: the symbolic class
+  stands under its name in its module for the time (as it does after
+  `@pg.functor def f` / `K = pg.symbolize(K)`)."""
+  cls = type(obj)
+  ns = sys.modules[cls.__module__].__dict__
+  name, old = cls.__name__, ns.get(cls.__name__, ns)
+  ns[name] = cls
+  try:
+    return pickle.loads(pickle.dumps(obj))
+  finally:
+    if old is ns:
+      del ns[name]
+    else:
+      ns[name] = old
+
+
+# The documented ways of a JSON round trip (all write every bound argument).
+JSON_FORMS = [
+    lambda o: pg.from_json(pg.to_json(o)),
+    lambda o: pg.from_json_str(pg.to_json_str(o)),
+    lambda o: pg.from_json(o.to_json()),
+]
 
 
 def outcome(fn):
@@ -309,15 +385,27 @@ def outcome(fn):
     return (type(e).__name__, e)
 
 
-def compare(ctx, t, kind, phase, exp, got, witness, pattern):
-  """Judges one library outcome against the reference. True = agree."""
+def compare(ctx, t, kind, phase, exp, got, witness, pattern, ordered=False):
+  """Judges one library outcome against the reference. True = agree.
+  `ordered`: all **kwargs were passed in one go, so their order is defined."""
   c = ctx.counters
   if exp[0] == 'ok' and got[0] == 'ok':
     c['both_return'] += 1
     if same(exp[1], got[1]):
+      if ordered and t.sig['varkw']:
+        c['varkw_order_checks'] += 1
+        eo, go = kw_order(t, exp[1]), kw_order(t, got[1])
+        if eo != go:
+          ctx.violation('wrong-arguments', f'{kind}:varkw-order',
+                        f'the callable called directly sees **{t.sig["varkw"]} in the order {eo}, '
+                        f'called through the symbolic object in the order {go}', witness)
+          return False
       return True
     clause, diff = 'wrong-arguments', first_difference(t, exp[1], got[1])
     mech = f'{kind}.{pattern}:{diff}'
+    if t.annotated:
+      # (one key per class of annotation of the first parameter that differs)
+      mech = f'{kind}:{t.annotation_class(first_difference_name(t, exp[1], got[1]))}'
     if t.decorated:
       # (one key for the decorated callable: the pattern and the parameter are in the detail)
       clause, mech = 'wrong-result', f'{kind}:result'
@@ -404,7 +492,8 @@ def check_signature(ctx, t):
     if not bad:
       for p in ps:
         a = t.pysig.parameters[p.name].annotation
-        if a is not EMPTY and p.annotation is not EMPTY and p.annotation is not a:
+        # (an equivalent annotation - `Union[int, float]` for `int | float` - describes the same)
+        if a is not EMPTY and p.annotation is not EMPTY and p.annotation is not a and p.annotation != a:
           bad = True
     if bad:
       ctx.violation('signature', f'{kind}:{where}',
@@ -520,7 +609,11 @@ def functor_call(ctx, t, j, rng):
   exp = expected(state, a2, k2)
   got = invoke(fo, a2, k2)
   phase = 'call'
-  agreed = compare(ctx, t, t.fkind, phase, exp, got, witness, pattern)
+  # The order of **kwargs is defined when all of them were passed in one go.
+  is_extra = lambda n: n not in t.pos + t.kwo
+  ordered = (not any(is_extra(n) for n, _, _ in rebinds)
+             and not (state[2] and any(is_extra(n) for n in k2)))
+  agreed = compare(ctx, t, t.fkind, phase, exp, got, witness, pattern, ordered=ordered)
   # The call must not have changed what is bound.
   check_report(ctx, t, t.fkind, fo, state, witness, where='sym_init_args-after-call')
 
@@ -534,14 +627,10 @@ def functor_call(ctx, t, j, rng):
       ctx.violation('clone-differs', f'{t.fkind}:call-outcome',
                     f'original: {got[0]} {plain(got[1]) if got[0] == "ok" else ""!r:.200}; '
                     f'clone: {gotc[0]} {gotc[1]!r:.200}', witness)
+    elif okr:
+      check_copy_order(ctx, t, t.fkind, 'clone-differs', fo, cl, got, gotc, None, witness)
     # JSON round trip: defaults are written as values, so only parameters
     # that have no value at all are bound at call time.
-    c['json_checks'] += 1
-    ctx.label = 'functor.json-round-trip'
-    js = pg.to_json(fo)
-    back = pg.from_json(js)
-    ctx.label = None
-    okr = check_report(ctx, t, t.fkind, back, state, witness, what='json-differs', where='sym_init_args')
     r2 = t.bind(a2, k2)
     kj = {}
     if r2[0] == 'ok':
@@ -549,11 +638,22 @@ def functor_call(ctx, t, j, rng):
         if n not in state[0] and n not in state[2] and n not in t.defaults:
           kj[n] = v
     expj = expected(state, [], kj)
-    gotj = invoke(back, [], kj, force_override=False)
-    if okr and (gotj[0] != expj[0] or (expj[0] == 'ok' and not same(expj[1], gotj[1]))):
-      ctx.violation('json-differs', f'{t.fkind}:call-outcome',
-                    f'call(**{kj!r}) on the round-tripped functor: expected {expj!r:.200}, got {gotj!r:.200}',
-                    witness)
+    copies = [('json-differs', 'json-round-trip', JSON_FORMS[c['json_checks'] % len(JSON_FORMS)])]
+    if c['json_checks'] % 3 == 0 and t.picklable:
+      copies.append(('pickle-differs', 'pickle-round-trip', pickled))
+    for what, label, roundtrip in copies:
+      c['json_checks' if what == 'json-differs' else 'pickle_checks'] += 1
+      ctx.label = 'functor.' + label
+      back = roundtrip(fo)
+      ctx.label = None
+      okr = check_report(ctx, t, t.fkind, back, state, witness, what=what, where='sym_init_args')
+      gotj = invoke(back, [], kj, force_override=False)
+      if okr and (gotj[0] != expj[0] or (expj[0] == 'ok' and not same(expj[1], gotj[1]))):
+        ctx.violation(what, f'{t.fkind}:call-outcome',
+                      f'call(**{kj!r}) on the round-tripped functor: expected {expj!r:.200}, got {gotj!r:.200}',
+                      witness)
+      elif okr:
+        check_copy_order(ctx, t, t.fkind, what, fo, back, got, gotj, set(state[2]), witness)
   return 'returned' if got[0] == 'ok' else 'rejected'
 
 
@@ -588,7 +688,7 @@ def class_call(ctx, t, j, rng):
     gotv = outcome(lambda: obj.got)
     if gotv[0] != 'ok':
       gotv = ('ok', '<__init__ did not run>')
-  if not compare(ctx, t, t.ckind, 'ctor', exp, gotv, witness, 'ctor-only'):
+  if not compare(ctx, t, t.ckind, 'ctor', exp, gotv, witness, 'ctor-only', ordered=True):
     return 'rejected'
   if exp[0] != 'ok':
     return 'rejected'
@@ -623,16 +723,25 @@ def class_call(ctx, t, j, rng):
   if not same(want[1], cl.got):
     ctx.violation('clone-differs', f'{t.ckind}:init-arguments',
                   f'expected {want[1]!r:.200}; clone was initialised with {plain(cl.got)!r:.200}', witness)
-  c['json_checks'] += 1
-  ctx.label = 'class.json-round-trip'
-  t.reset()
-  back = pg.from_json(pg.to_json(obj))
-  ctx.label = None
-  check_report(ctx, t, t.ckind, back, state, witness, what='json-differs', where='sym_init_args')
-  if not same(want[1], back.got):
-    ctx.violation('json-differs', f'{t.ckind}:init-arguments',
-                  f'expected {want[1]!r:.200}; round trip was initialised with {plain(back.got)!r:.200}',
-                  witness)
+  else:
+    check_copy_order(ctx, t, t.ckind, 'clone-differs', obj, cl, ('ok', obj.got), ('ok', cl.got), None,
+                     witness)
+  copies = [('json-differs', 'json-round-trip', JSON_FORMS[c['json_checks'] % len(JSON_FORMS)])]
+  if c['json_checks'] % 3 == 0 and t.picklable:
+    copies.append(('pickle-differs', 'pickle-round-trip', pickled))
+  for what, label, roundtrip in copies:
+    c['json_checks' if what == 'json-differs' else 'pickle_checks'] += 1
+    ctx.label = 'class.' + label
+    t.reset()
+    back = roundtrip(obj)
+    ctx.label = None
+    check_report(ctx, t, t.ckind, back, state, witness, what=what, where='sym_init_args')
+    if not same(want[1], back.got):
+      ctx.violation(what, f'{t.ckind}:init-arguments',
+                    f'expected {want[1]!r:.200}; round trip was initialised with {plain(back.got)!r:.200}',
+                    witness)
+    else:
+      check_copy_order(ctx, t, t.ckind, what, obj, back, ('ok', obj.got), ('ok', back.got), None, witness)
   return 'returned'
 
 
@@ -805,6 +914,140 @@ def run_decorated(ctx, sig, uid, rng):
     c['decorated:' + r] += 1
     if sum(v['count'] for v in ctx.violations.values()) != before:
       break       # one report per target
+
+
+# -- annotated signatures: unions, optionals, containers of unions ------------------
+
+SPEC_OF = {int: pg.typing.Int, float: pg.typing.Float, str: pg.typing.Str, bool: pg.typing.Bool}
+
+
+def explicit_spec(annot):
+  """The value spec a user would write for the annotation (members in the
+  order written)."""
+  members = D.ANNOTATION_MEMBERS[annot]
+  if annot in (None, 'Any'):
+    return pg.typing.Any()
+  if isinstance(members[0], list):
+    return pg.typing.List(pg.typing.Union([SPEC_OF[m]() for m in members[0]]))
+  specs = [SPEC_OF[m]() for m in members if m is not None]
+  spec = specs[0] if len(specs) == 1 else pg.typing.Union(specs)
+  return spec.noneable() if None in members else spec
+
+
+class UTarget(Target):
+  """A signature whose parameters, *args and **kwargs carry annotations (unions
+  in both member orders, optionals, containers of unions, plain types), typed
+  by the library from the annotations; every value has the exact type of one
+  member, so plain Python and the typed symbolic callable accept the same calls."""
+  annotated = True
+
+  def __init__(self, shape, uid, rng):   # pylint: disable=super-init-not-called
+    sig = D.annotate_signature(rng, shape)
+    ns = sys.modules[MODULE].__dict__
+    ns.update({k: v for k, v in D.UNION_NAMESPACE.items() if not k.startswith('__')})
+    params = D.render_annotated_params(sig)
+    fname, cname = f'uf_{uid}', f'UK_{uid}'
+    fsrc = f'def {fname}({params}):\n  return dict(locals())\n'
+    csrc = (f'class {cname}:\n'
+            f'  def __init__(self{", " + params if params else ""}):\n'
+            f'    got = dict(locals())\n'
+            f'    got.pop("self")\n'
+            f'    self.got = got\n')
+    exec(fsrc, ns)  # pylint: disable=exec-used
+    exec(csrc, ns)  # pylint: disable=exec-used
+    f, K = ns[fname], ns[cname]
+    f.__module__ = K.__module__ = MODULE
+    Target.__init__(self, sig, uid, rng, f=f, K=K)
+    self.fsrc, self.csrc = fsrc, csrc
+    self.fkind, self.ckind = 'annotated-functor', 'annotated-class'
+    self.entry = rng.choice(['symbolize-auto-typing', 'functor-auto-typing', 'functor-specs'])
+    self.class_entry = rng.choice(['symbolize-auto-typing', 'wrap-auto-typing'])
+
+  def build(self):
+    sig = self.sig
+    if self.entry == 'symbolize-auto-typing':
+      self.F = pg.symbolize(self.f, auto_typing=True)
+    elif self.entry == 'functor-auto-typing':
+      self.F = pg.functor(auto_typing=True)(self.f)
+    else:
+      specs = [(p[0], explicit_spec(p[3])) for p in sig['pos'] + sig['kwonly']]
+      if sig['varargs']:
+        specs.append((sig['varargs'], pg.typing.List(explicit_spec(sig['varargs_annot']))))
+      if sig['varkw']:
+        specs.append((pg.typing.StrKey(), explicit_spec(sig['varkw_annot'])))
+      self.F = pg.functor(specs)(self.f)
+    fn = pg.symbolize if self.class_entry.startswith('symbolize') else pg.wrap
+    self.C = fn(self.K, auto_typing=True)
+
+  def annotation(self, name=None, position=None):
+    return D.annotation_of(self.sig, name=name, position=position)
+
+  def annotation_class(self, name):
+    if name is None:
+      return 'result'
+    if name == self.sig['varargs']:
+      return 'varargs-' + D.ANNOTATION_CLASS[self.sig['varargs_annot']]
+    if name == self.sig['varkw']:
+      return 'varkw-' + D.ANNOTATION_CLASS[self.sig['varkw_annot']]
+    return D.ANNOTATION_CLASS[self.annotation(name=name)]
+
+  def value(self, rng, annot, name=None):
+    if annot == '':
+      return rng.randint(1, 9)        # (cannot be bound: both sides reject the call)
+    if name in self.defaults and rng.random() < 0.1:
+      return copy_mod.deepcopy(self.defaults[name])       # explicitly bound to its default
+    return D.union_value(rng, annot)
+
+  def make_call(self, rng, style=None):
+    a, k = S.make_call(rng, self.sig, style)
+    a = [self.value(rng, self.annotation(position=i), self.pos[i] if i < len(self.pos) else None)
+         for i in range(len(a))]
+    items = [(n, self.value(rng, self.annotation(name=n), n)) for n in k]
+    if self.sig['varkw'] and rng.random() < 0.5:
+      # several **kwargs entries, passed in an arbitrary order
+      items += [(n, self.value(rng, self.sig['varkw_annot']))
+                for n in rng.sample(D.EXTRA_NAMES, rng.randint(2, 4)) if n not in k]
+      rng.shuffle(items)
+    return a, dict(items)
+
+  def late_bindings(self, rng, n, how):
+    annot = self.annotation(name=n)
+    late = D.union_value(rng, annot, late=True)
+    if n in self.defaults and rng.random() < 0.25:
+      return [(n, late, how), (n, copy_mod.deepcopy(self.defaults[n]), rng.choice(['rebind', 'setattr']))]
+    return [(n, late, how)]
+
+  def rebind_value(self, rng, n):
+    return D.union_value(rng, self.annotation(name=n), late=True)
+
+
+def run_annotated(ctx, uid, rng):
+  c = ctx.counters
+  t = UTarget(S.make_signature(rng), uid, rng)
+  ctx.label = 'symbolize'
+  t.build()
+  ctx.label = None
+  c['annotated_targets'] += 1
+  c['annotated_entry:' + t.entry] += 1
+  sig = t.sig
+  annots = [p[3] for p in sig['pos'] + sig['kwonly']] + [
+      sig[k] for k in ('varargs_annot', 'varkw_annot') if sig[k[:-6]]]
+  for an in annots:
+    c['annotation:' + D.ANNOTATION_CLASS[an]] += 1
+    ctx.seen('annotations', an)
+  check_signature(ctx, t)
+  for j in range(ctx.params['annotated_calls']):
+    before = sum(v['count'] for v in ctx.violations.values())
+    if j % 3 == 2:
+      r = class_call(ctx, t, j, rng)
+      c['annotated_class_constructions_compared'] += 1
+    else:
+      r = functor_call(ctx, t, j, rng)
+      c['annotated_functor_calls_compared'] += 1
+    c['annotated:' + r] += 1
+    if sum(v['count'] for v in ctx.violations.values()) != before:
+      break       # one report per target
+  return t
 
 
 # -- nested partial arguments completed through deep paths -------------------------
@@ -1453,6 +1696,7 @@ def run_case(ctx, i):
   run_decorated(ctx, sig, f'{ctx.shard}_{i}', rng)
   run_nested(ctx, f'{ctx.shard}_{i}', rng)
   h = run_histories(ctx, t, f'{ctx.shard}_{i}', rng)
+  run_annotated(ctx, f'{ctx.shard}_{i}', rng)
   if kinds >= 2 and {'returned', 'rejected'} <= results:
     ctx.mark_nontrivial((S.render_params(sig), t.entry, t.class_entry))
   if i < 2:
